@@ -383,6 +383,9 @@ func (p *Pkg) unionDomain(t *yang.YangType) []Value {
 			out = append(out, Value("bool:true"))
 		case yang.Ydecimal64:
 			out = append(out, Value("dec:-0.5"))
+			if m.FractionDigits >= 6 {
+				out = append(out, Value("dec:0.000001"), Value("dec:1234567.891"))
+			}
 		}
 	}
 	return out
